@@ -145,6 +145,28 @@ def appAt (s : List Step) (i : Nat) : List Fault :=
   | some (.recv _ app _) => app
   | _ => []
 
+/-! ## the PIN as a parameter
+
+The only secret a handler compares is the PIN: the device checks the SRP proof derived from the
+PIN typed by the user against the PIN it displays (MRP/Companion/AirPlay-HAP M3→M4, legacy
+step 2), and `DmapPairingHandler._verify_pin` compares the received pairing code with the hash
+of the PIN given to `pin()`.  In the model the comparison is equality of the two values, for
+EVERY value (0 = "0000" included); a mismatch is the fault `wrongPin` at the await point that
+carries the proof. -/
+
+def pinFault (expected typed : Nat) : Option Fault :=
+  if expected = typed then none else some .wrongPin
+
+/-- the await point at which a wrong PIN shows (the first one that accepts `wrongPin`) -/
+def proofIndex? (s : List Step) : Option Nat :=
+  (List.range s.length).find? (fun i => (appAt s i).contains Fault.wrongPin)
+
+/-- run a script with the PIN the peer expects and the PIN that was supplied -/
+def runPins (s : List Step) (expected typed : Nat) : Outcome × St :=
+  match pinFault expected typed, proofIndex? s with
+  | some f, some i => run s (some (i, f))
+  | _, _ => run s none
+
 /-! ## well-formedness predicates (all decidable, computed) -/
 
 def noAwait : List Step → Bool
